@@ -57,6 +57,11 @@ def impl_case(case):
         for tag in ("hu_text", "ext_text", "plain_text"):
             r = call(parse_structure_statement, "structure [3nt] X = s1 + s2 : " + case[tag])
             out["stmt_" + tag] = ["ok", r[1][3][1], r[1][0]] if r[0] == "ok" else r
+        # the same HU text with blanks inside the terms (`U 2 H 3 ( .. )`): another spelling of the same structure
+        spaced = re.sub(r"(\d+)\(", r"\1 (", re.sub(r"([UH])(\d+)", r"\1 \2", case["hu_text"]))
+        out["hu_spaced"] = call(H.HU2dotParen, spaced)
+        r = call(parse_structure_statement, "structure [3nt] X = s1 + s2 : " + spaced)
+        out["stmt_hu_spaced"] = ["ok", r[1][3][1], r[1][0]] if r[0] == "ok" else r
         return out
     if k == "bad":
         return {"ext": call(H.extended2dotParen, case["text"]), "dp2hu": call(H.dotParen2HU, case["plain"])}
@@ -182,6 +187,8 @@ def run(tier, seed, build):
                 st = r["stmt_" + tag + "_text"]
                 if st[:2] != want:
                     fail("predicate", "statement:" + tag, "structure statement with the %s spelling %r of %r parses to %r" % (tag, c[tag + "_text"], dp, st), c)
+            if r.get("hu_spaced") != ["ok", dp] or r.get("stmt_hu_spaced", [None])[:2] != ["ok", dp]:
+                fail("predicate", "spelling:hu-spaced", "the HU spelling %r of %r with blanks inside its terms converts to %r / parses to %r" % (c["hu_text"], dp, r.get("hu_spaced"), r.get("stmt_hu_spaced")), c)
             # dotParen2HU
             if r["dp2hu"][0] != "ok":
                 fail("predicate", "dp2hu-rejects", "dotParen2HU rejects the balanced string %r" % dp, c)
